@@ -13,27 +13,27 @@ TRUST = ("Trusted base: the harness's own reference models/oracles and recording
          "Only executions the workload produced are decided; the evidence file says how many and which kinds.")
 
 P = {
- "c01": ("exploration", "relational oracle between the drawing paths (draw on a draw_iter-only target, draw on a native-fill target that pulls every colour, draw on a native-fill target that skips invisible colours with Iterator::nth, pixels() via draw_iter) on bounded/unbounded boxes and through cropped/clipped/translated views of a parent; recorded pixel maps compared, also on targets that consume with for_each (Iterator::fold); pixels() consumed through count/last/fold/nth",
+ "c01": ("exploration", "relational oracle between the drawing paths (draw on a draw_iter-only target, draw on a native-fill target that pulls every colour, draw on a native-fill target that skips invisible colours with Iterator::nth, pixels() via draw_iter) on bounded/unbounded boxes and through cropped/clipped/translated views of a parent; recorded pixel maps compared, also on targets that consume with for_each (Iterator::fold); pixels() consumed through count/last/fold/nth; thin one-colour rounded rectangles with independently confined radii; fonts with tens of thousands of glyphs",
          "Every generated drawable (8 styled primitives, polylines, raw images and sub-images in several colour depths, text in built-in and custom fonts) is rendered by the real code on two recording targets and through pixels(); the final pixel maps must be equal. Exhaustive over small sizes/styles, random beyond.", "4 C01"),
  "c02": ("exploration", "event-log invariant: every point a drawable touches on an unbounded recording target must satisfy bounding_box().contains; transparent styles touch nothing",
          "Touched-point sets of real draw() runs are checked against bounding_box() for all drawables incl. text in every built-in font of the working tree x decorations x baselines x alignments x line heights.", "4 C02"),
- "c03": ("exploration", "online reference-model monitor: set-theoretic model of adapter stacks (clipped/cropped/translated/color_converted, depth <= 3) run in lockstep with random operation histories; parent state, event log and bounding boxes compared after every operation; parents pulling with next() or consuming with for_each, streams with exact, partial and absent size hints; virtual canvases (areas up to 2^20 wide with up to 2^20 rows above the parent window, colour streams positioning in O(1), offsets of the first visible colour up to 2^36)",
+ "c03": ("exploration", "online reference-model monitor: set-theoretic model of adapter stacks (clipped/cropped/translated/color_converted, depth <= 3) run in lockstep with random operation histories; parent state, event log and bounding boxes compared after every operation; parents pulling with next() or consuming with for_each, streams with exact, partial and absent size hints; virtual canvases (areas up to 2^20 wide with up to 2^20 rows above the parent window, colour streams positioning in O(1), offsets of the first visible colour up to 2^36), half of the offsets exact special values (multiples of 2^16 - 1, 2^16, powers of two and neighbours)",
          "Random histories of draw_iter/fill_contiguous/fill_solid/clear with unique colours per write through all adapter nestings up to depth 3 over native and default-fill parents with arbitrary boxes; the innermost parent's pixel map must equal the model's after each operation, nothing outside the composed clip may reach it, and the trait defaults must emit exactly zip(row-major points, colours).", "4 C03"),
- "c04": ("fault_enumeration", "fault injection at the DrawTarget boundary: for every drawable/adapter stack the fault-free call log is recorded, then each k-th call is failed with a unique error value; offline check of the event log (no call after the fault, prefix equals fault-free log, returned error identical)",
+ "c04": ("fault_enumeration", "fault injection at the DrawTarget boundary: for every drawable/adapter stack the fault-free call log is recorded, then each k-th call is failed with a unique error value; offline check of the event log (no call after the fault, prefix equals fault-free log, returned error identical); dotted rectangles with hundreds of dots per side",
          "Enumerates the failing call index k over the n calls of each fault-free run (all k when n <= 48, else first/last/random 16 each).", "4 C04"),
  "c05": ("exploration", "relational oracle points() vs contains() (through the PointsIter/ContainsPoint traits) on the real primitives, probing contains() on the bounding box plus a margin and on far-away points; order/uniqueness/bounding-box invariants on the yielded sequence; the iterator consumed through count/last/fold/nth/skip from partly consumed states; shapes with one side beyond 16 bits walked row by row",
          "Exhaustive over small sizes, radii, vertex grids and angle grids, random beyond.", "4 C05"),
- "c06": ("exploration", "reference model built from fill_area()/stroke_area().contains() compared with the recorded pixel maps of draw() (both targets, unbounded and bounded boxes) and pixels(); geometric oracle for the grown/shrunk areas; shapes with one side beyond 16 bits",
+ "c06": ("exploration", "reference model built from fill_area()/stroke_area().contains() compared with the recorded pixel maps of draw() (both targets, unbounded and bounded boxes) and pixels(); geometric oracle for the grown/shrunk areas; shapes with one side beyond 16 bits; circles of 600..1400 px",
          "Exhaustive over the four closed shapes x small sizes x stroke widths (also wider than the shape, and inside strokes of extreme width up to u32::MAX) x alignments x colour presence.", "4 C06"),
  "c07": ("exploration", "metamorphic relation monitored on recorded pixel maps (unbounded and bounded targets): render(x.translate(d)) == shift(render(x), d), likewise points(), contains(), bounding boxes and text's returned position; translate_mut == translate; two translations add up; far offsets (around 2^15, 2^16, up to 10^6)",
          "All drawables of the zoo x offsets incl. axis crossings; polylines also by moving vertices.", "4 C07"),
  "c08": ("exploration", "sanitizer-style build (overflow checks + debug assertions) with panic monitor (attribution by panic location/backtrace), counting global allocator armed around library calls, iterator step budgets, per-case wall-clock watchdog (non-termination); boundary-biased display-scale workloads in the default and fixed_point feature sets; Miri pass over the rejection workload in the thorough tier",
          "Every constructor/query/draw over the stated display-scale domain is executed under the monitors; a repository panic, an allocation or an exhausted step budget is a violation.", "4 C08"),
- "c09": ("exploration", "independent decoder of the documented raw layouts as reference model; recorded pixel maps (unbounded and bounded targets; colour stream pulled with next() or skipped with nth()) and the number of colours drained from the fill_contiguous stream compared with the model; images with one side beyond 16 bits",
+ "c09": ("exploration", "independent decoder of the documented raw layouts as reference model; recorded pixel maps (unbounded and bounded targets; colour stream pulled with next() or skipped with nth()) and the number of colours drained from the fill_contiguous stream compared with the model; images with one side beyond 16 bits; sub-images starting at exact special offsets of the pixel stream",
          "7 raw widths x 2 data orders x small sizes exhaustive x random bytes x offsets x sub-image areas (nested twice).", "4 C09"),
- "c10": ("exploration", "history + executable model: random write histories on Framebuffer instantiations (7 depths x 2 orders x several sizes, exact and oversized buffers) with a reference map updated in lockstep; pixel(), data(), as_image() (drawn on unbounded and bounded targets) compared after every operation",
+ "c10": ("exploration", "history + executable model: random write histories on Framebuffer instantiations (7 depths x 2 orders x several sizes, exact and oversized buffers) with a reference map updated in lockstep; pixel(), data(), as_image() (drawn on unbounded and bounded targets) compared after every operation; fills reaching beyond i32::MAX (about 2^31 points walked by the documented default)",
          "Read-your-writes, no write outside, tail bytes untouched, layout equals ImageRaw's.", "4 C10"),
- "c11": ("exploration", "independent encoder of the two documented layouts as reference model for store/load; iterator positions and size_hint after random next()/nth() mixes compared with load(i); the iterator consumed through count/last/fold/skip, also after an overshooting nth(huge); documented bit widths; buffers up to megabytes (size_hint, load, nth, tail consumers, store)",
+ "c11": ("exploration", "independent encoder of the two documented layouts as reference model for store/load; iterator positions and size_hint after random next()/nth() mixes compared with load(i); the iterator consumed through count/last/fold/skip, also after an overshooting nth(huge); documented bit widths; buffers up to megabytes (size_hint, load, nth, tail consumers, store); lazily mapped buffers with more than 2^32 pixels",
          "7 raw types x 2 orders x all indices in buffers 0..=L x all values up to 16 bits (exhaustive) / boundary+random 24/32 bits x background patterns.", "4 C11"),
  "c12": ("exploration", "exhaustive enumeration of every colour value and every raw value of all 14 colour types against the documented bit layouts (independent model); raw values obtained with RawData::load from packed bytes in both data orders",
          "Quick: all values up to 16 bits, per-channel exhaustive + random for 24-bit types; thorough: every value.", "4 C12"),
@@ -47,11 +47,11 @@ P = {
          "All ordered pairs of grid rectangles incl. zero sizes, every rectangle x anchors x sizes x offsets, plus random large rectangles.", "4 C16"),
  "c17": ("exploration", "exact integer oracle of the statement over the point sequences of Line::points() and Styled<Line>::pixels(): end points, count, unit steps, half-pixel error bound, thick-line containment/uniqueness/distance/extent/width bounds for all three stroke alignments; draw() on unbounded and bounded targets == pixels(); both iterators consumed through count/last/fold/nth/skip from partly consumed states; lines far from the origin (beyond 16 bits)",
          "All end points in a grid x widths (exhaustive) plus random long lines.", "4 C17"),
- "c18": ("exploration", "exact/f64 geometric oracles (doubled-coordinate distance for circles, closest-point distance to ellipse/corner curves with guard bands, angle test for arcs/sectors) plus equivalence relations between primitives; both arithmetic back-ends; confine_radii() arithmetic on millions of display-scale rectangles (sums never exceed the side, fitting radii unchanged, no radius grows)",
+ "c18": ("exploration", "exact/f64 geometric oracles (doubled-coordinate distance for circles, closest-point distance to ellipse/corner curves with guard bands, angle test for arcs/sectors) plus equivalence relations between primitives; both arithmetic back-ends; confine_radii() arithmetic on millions of display-scale rectangles (sums never exceed the side, fitting radii unchanged, no radius grows); circles up to 2100 px",
          "Exhaustive over diameters/axis pairs/radius combinations/1-degree angle grids up to the stated bounds, random fractional angles; default and fixed_point builds.", "4 C18"),
- "c19": ("exploration", "exact cross-product oracles over point sets from Triangle::points(), Styled<Triangle>::pixels() and Polyline::points(): interior coverage, 1-px edge band, vertex-order independence, shared-edge gap freedom, outline/polyline = union of Line segments; draw() of fills, outlines and polylines on unbounded and bounded targets; triangles and polylines far from the origin",
+ "c19": ("exploration", "exact cross-product oracles over point sets from Triangle::points(), Styled<Triangle>::pixels() and Polyline::points(): interior coverage, 1-px edge band, vertex-order independence, shared-edge gap freedom, outline/polyline = union of Line segments; draw() of fills, outlines and polylines on unbounded and bounded targets; triangles and polylines far from the origin; edges of 2500..6500 px",
          "All vertex triples on a small grid (exhaustive) and random larger ones; all pairs of triangles sharing an edge; polylines of 0..=6 vertices.", "4 C19"),
- "c20": ("exploration", "history + executable model: independent map model of MockDisplay run in lockstep with random draw histories under the four flag combinations (set explicitly or left at their documented defaults, displays built with new/default/from_points/clone), every operation inside catch_unwind (panic iff the model predicts one); pattern/Debug round trips; far points that alias a display cell modulo 64, 4096 or a power of two",
+ "c20": ("exploration", "history + executable model: independent map model of MockDisplay run in lockstep with random draw histories under the four flag combinations (set explicitly or left at their documented defaults, displays built with new/default/from_points/clone), every operation inside catch_unwind (panic iff the model predicts one); pattern/Debug round trips; far points that alias a display cell modulo 64, 4096 or a power of two; single calls with more than 2^20 points",
          "Random histories with in/out-of-range and repeated points; all colour alphabets for from_pattern/Debug.", "4 C20"),
 }
 
